@@ -837,6 +837,7 @@ def t_s1(ctx: Ctx, rule: str) -> None:
         ("lxc", "swarm"),
         ("remote", "cluster"),
     ]
+    chains = []
     for fref, wname in ((fs.ref, "worker"), (ff.ref, "worker"), (f"{NODE}:TestNode.shared_filtered_results", "self.started_worker")):
         fn = ctx.repo.func(fref)
         ctx.touch(fref)
@@ -856,19 +857,27 @@ def t_s1(ctx: Ctx, rule: str) -> None:
             scope = next((s for s in ("swarm", "cluster") if any(a.startswith(f"'{s}' in ") and "pool_scope" in a for a in atoms)), None)
             # required shape: worker and (scope not in pool_scope) and spawner == X
             req = None
-            if spawner and scope:
+            if scope:
                 watom = next((a for a in atoms if a == wname), None)
                 satom = next(a for a in atoms if a.startswith(f"'{scope}' in "))
-                patom = next(a for a in atoms if f"== '{spawner}'" in a)
+                patom = next((a for a in atoms if spawner and f"== '{spawner}'" in a), None)
                 if watom:
-                    req = norm.conj([("atom", watom), ("not", ("atom", satom)), ("atom", patom)])
+                    req = norm.conj([("atom", watom), ("not", ("atom", satom))] + ([("atom", patom)] if patom else []))
             got.append((spawner, scope, req is not None and norm.equivalent(f, req)))
             cur = cur.orelse[0] if len(cur.orelse) == 1 else None
-        ok = [(s, c) for s, c, _ in got] == want and all(e for _, _, e in got)
-        ctx.record(rule + "b", "SIBLING", fref, "scope chain: (worker and 'swarm' not in pool_scope and spawner == lxc) -> per worker; "
-                   "(worker and 'cluster' not in pool_scope and spawner == remote) -> per swarm; else global",
-                   ok, {"extracted": [(s, c, e) for s, c, e in got]},
-                   "" if ok else f"scope discrimination of {fref} deviates from the shared scheme: {got}")
+        # (b) the three functions discriminate alike: swarm first (per worker), then cluster (per swarm), each a plain conjunction
+        ok = [c for _, c, _ in got] == ["swarm", "cluster"] and all(e for _, _, e in got)
+        chains.append([(s, c) for s, c, _ in got])
+        ctx.record(rule + "b", "SIBLING", fref, "scope chain: (worker and 'swarm' not in pool_scope ...) -> per worker; (worker and 'cluster' not in pool_scope ...) -> per swarm; else global",
+                   ok and chains[0] == chains[-1], {"extracted": [(s, c, e) for s, c, e in got]},
+                   "" if ok and chains[0] == chains[-1] else f"scope discrimination of {fref} deviates from the shared scheme: {got}")
+        # (p) from the property: reuse is narrowed by the pool_scope keywords alone ("one swarm, or one worker, when the pool scope is
+        # narrowed"), whatever kind of spawner a worker uses
+        tied = [(s, c) for s, c, _ in got if s]
+        ctx.record(rule + "p", "TABLE", fref, "the scope a test is started / finished / has results in is narrowed by the pool_scope keywords alone, not by the spawner kind", not tied,
+                   {"spawner_conditions": tied},
+                   "" if not tied else f"narrowing of the reuse scope is tied to the spawner kind {tied}: remote hosts of one swarm without 'swarm' in pool_scope (or an lxc worker next to remote "
+                   "ones without 'cluster') count a sibling's setup as their own, although the state backend refuses that sibling's pool for the same pool_scope - the state is unreachable")
 
 
 def t_s1c(ctx: Ctx, rule: str) -> None:
